@@ -1,23 +1,60 @@
-"""Randomness seam: the repository's own ``SphinxRenderer._random_label`` (its tests patch it too).
+"""Randomness seam: ``uuid4`` as used by ``SphinxRenderer._random_label`` (labels of numbered amsmath blocks).
 
-The label source is an input the simulator controls: ``sim-<docname>-<n>`` with n restarting at
-each document, so two parses of one document agree and any *other* difference still shows.
+The label source is an input the simulator controls.  It is interposed one level *below* the repository's
+own ``_random_label`` method (which stays real code): the ``uuid4`` name bound in
+``myst_parser.mdit_to_docutils.sphinx_`` and ``uuid.uuid4`` return ``sim-<docname>-<n>`` with n restarting at
+each document, so two parses of one document agree and any *other* difference still shows - including a
+``_random_label`` that stops using ``uuid4`` and draws from process-wide state instead.
 """
 
 from __future__ import annotations
 
+import sys
+import uuid
+
+_REAL_UUID4 = uuid.uuid4
+
+
+class _SimUUID:
+    """What ``str(uuid4())`` / ``uuid4().hex`` see."""
+
+    def __init__(self, text: str):
+        self._text = text
+        self.hex = text.replace("-", "")
+
+    def __str__(self) -> str:
+        return self._text
+
+    __repr__ = __str__
+
+
+def _sim_uuid4():
+    # the caller is ``_random_label(self)`` (or whatever the code under test turns it into): find the renderer
+    f = sys._getframe(1)
+    doc = None
+    docname = "doc"
+    for _ in range(4):
+        if f is None:
+            break
+        obj = f.f_locals.get("self")
+        doc = getattr(obj, "document", None)
+        if doc is not None:
+            try:
+                docname = obj.sphinx_env.docname
+            except Exception:  # noqa: BLE001
+                docname = "doc"
+            break
+        f = f.f_back
+    if doc is None:
+        return _REAL_UUID4()  # not a label request of a renderer: leave it alone
+    n = getattr(doc, "_sim_label_n", 0) + 1
+    doc._sim_label_n = n
+    return _SimUUID(f"sim-{str(docname).replace('/', '-')}-{n}")
+
 
 def install() -> None:
-    from myst_parser.mdit_to_docutils.sphinx_ import SphinxRenderer
+    import myst_parser.mdit_to_docutils.sphinx_ as sx
 
-    def _random_label(self) -> str:
-        doc = self.document
-        n = getattr(doc, "_sim_label_n", 0) + 1
-        doc._sim_label_n = n
-        try:
-            docname = self.sphinx_env.docname
-        except Exception:  # noqa: BLE001
-            docname = "doc"
-        return f"sim-{docname.replace('/', '-')}-{n}"
-
-    SphinxRenderer._random_label = _random_label
+    if "uuid4" in sx.__dict__:
+        sx.uuid4 = _sim_uuid4
+    uuid.uuid4 = _sim_uuid4
